@@ -79,6 +79,7 @@ def Cst.orderOk : Cst → Bool
   | .paren its _ => its.orderOk .paren .none false false
   | .app f cs _ a => f.orderOk && appOrderOk cs && a.orderOk
   | .kw _ _ _ h _ _ _ _ b => h.orderOk && b.orderOk
+  | .sel e _ _ _ _ => e.orderOk
 /-- An `assert` renders its trailing trivia (`after`) between its `;` and its body: a comment that the
     enclosing sequence attaches to an `assert` item (any comment after it: top level, parentheses) comes
     out in front of the body (`C03.cex_comment_after_assert`). The value of a binding is rendered without
@@ -105,6 +106,7 @@ def Cst.orderOkSeq : Cst → Bool
   | .paren its _ => its.orderOkSeq .paren .none false false
   | .app f _ _ a => f.orderOkSeq && a.orderOkSeq
   | .kw _ _ _ h _ _ _ _ b => h.orderOkSeq && b.orderOkSeq
+  | .sel e _ _ _ _ => e.orderOkSeq
 def Items.orderOkSeq : Items → Mode → Prev → Bool → Bool → Bool
   | .nil, _, _, _, _ => true
   | .cmt g _ rest, m, prev, pending, hasItem =>
@@ -159,6 +161,7 @@ def Expr.effAfter : Expr → Bool → List Trivia
   | .app _ _ _ _ _ a, na => if na then [] else a
   | .wth _ _ _ _ _ _ a, na => if na then [] else a
   | .asrt _ _ _ _ _ a, na => if na then [] else a
+  | .sel _ _ _ _ _ a, na => if na then [] else a
 
 def closedB (ts : List Trivia) : Bool :=
   match ts.getLast? with
@@ -180,8 +183,9 @@ def Expr.inlineCleanB : Expr → Bool
   | .binding _ v _ _ _ => v.inlineCleanB
   | .paren v lg _ _ _ _ _ => ((Layout.fromGap lg).onNewline || v.before.isEmpty) && v.inlineCleanB
   | .app n x g _ _ _ => ((Layout.fromGap g).onNewline || x.before.isEmpty) && n.inlineCleanB && x.inlineCleanB
-  | .wth .. => false     -- `with` / `assert`: outside the spacing theorem so far (`File.basic`)
+  | .wth .. => false     -- `with` / `assert` / select: outside the spacing theorem so far (`File.basic`)
   | .asrt .. => false
+  | .sel .. => false
 def allInlineCleanB : List Expr → Bool
   | [] => true
   | e :: rest => e.inlineCleanB && allInlineCleanB rest
@@ -206,8 +210,9 @@ def Expr.beforeFlatB : Expr → Bool
   | .binding _ v _ _ _ => v.beforeFlatB
   | .paren v lg _ _ _ _ _ => ((Layout.fromGap lg).onNewline || v.before.isEmpty) && v.beforeFlatB
   | .app n x g _ _ _ => ((Layout.fromGap g).onNewline || x.before.isEmpty) && n.beforeFlatB && x.beforeFlatB
-  | .wth .. => false     -- `with` / `assert`: outside the spacing theorem so far (`File.basic`)
+  | .wth .. => false     -- `with` / `assert` / select: outside the spacing theorem so far (`File.basic`)
   | .asrt .. => false
+  | .sel .. => false
 def allBeforeFlatB : List Expr → Bool
   | [] => true
   | e :: rest => e.beforeFlatB && allBeforeFlatB rest
@@ -228,6 +233,7 @@ def Expr.beforeFlatG : Expr → Bool
   | .app n x _ _ _ _ => n.beforeFlatG && x.beforeFlatG
   | .wth .. => false
   | .asrt .. => false
+  | .sel .. => false
 def allBeforeFlatG : List Expr → Bool
   | [] => true
   | e :: rest => e.beforeFlatG && allBeforeFlatG rest
@@ -247,6 +253,7 @@ def Expr.beforeFlatP : Expr → Bool
   | .app n x _ _ _ _ => n.beforeFlatP && x.beforeFlatP
   | .wth .. => false
   | .asrt .. => false
+  | .sel .. => false
 def allBeforeFlatP : List Expr → Bool
   | [] => true
   | e :: rest => e.beforeFlatP && allBeforeFlatP rest
@@ -263,6 +270,7 @@ def Cst.orderOkNA : Cst → Bool
   | .paren its _ => its.orderOkNA .paren .none false false
   | .app f cs _ a => f.orderOkNA && appOrderOk cs && a.orderOkNA
   | .kw _ _ _ h _ _ _ _ b => h.orderOkNA && b.orderOkNA
+  | .sel e _ _ _ _ => e.orderOkNA
 def Items.orderOkNA : Items → Mode → Prev → Bool → Bool → Bool
   | .nil, _, _, _, _ => true
   | .cmt g _ rest, m, prev, pending, hasItem =>
@@ -289,6 +297,7 @@ def Cst.basic : Cst → Bool
   | .paren its _ => its.basic
   | .app f _ _ a => f.basic && a.basic
   | .kw .. => false
+  | .sel .. => false
 def Items.basic : Items → Bool
   | .nil => true
   | .cmt _ _ rest => rest.basic
@@ -307,7 +316,8 @@ def Cst.cf : Cst → Bool
   | .set _ _ its _ => its.cf
   | .paren its _ => its.cf
   | .app f cs _ a => f.cf && cs.isEmpty && a.cf
-  | .kw .. => false     -- the normaliser `Cst.norm` does not cover `with` / `assert` yet
+  | .kw .. => false     -- the normaliser `Cst.norm` does not cover `with` / `assert` / select yet
+  | .sel .. => false
 def Items.cf : Items → Bool
   | .nil => true
   | .cmt _ _ _ => false
@@ -349,6 +359,7 @@ def Cst.norm : Cst → Nat → Cst
     .app (f.norm i) cs (if containsNL g then vgap g (indentFromGap g) else [' '])
       (a.norm (if containsNL g then indentFromGap g else i))
   | .kw w c1 g1 h c2 g2 c3 g3 b, _ => .kw w c1 g1 h c2 g2 c3 g3 b     -- not covered by the normaliser
+  | .sel e c1 g1 gd attrs, _ => .sel e c1 g1 gd attrs
 /-- items of a container that spans several lines, one per line at indentation `j` -/
 def Items.normML : Items → Nat → Items
   | .nil, _ => .nil
